@@ -30,6 +30,9 @@ def subst(spec, root):
 def older_version(r, entries, base_from, base_to):
     """A destination that an earlier copy of an older version of the tree would have left behind."""
     pre = []
+    # (directories without anything in them: nothing below them would make the run fail when the older version had a file or a link there)
+    empty_dst = {base_to + e["p"][len(base_from):] for e in entries if e["k"] == "d" and (e["p"] == base_from or e["p"].startswith(base_from + "/"))
+                 and not any(c["p"].startswith(e["p"] + "/") for c in entries)}
     for e in entries:
         if not (e["p"] == base_from or e["p"].startswith(base_from + "/")):
             continue
@@ -52,7 +55,7 @@ def older_version(r, entries, base_from, base_to):
         pre.append(n)
     # now and then the older version had another kind of entry at a path (the run may refuse; exit 0 must still mean a mirror)
     for n in pre:
-        if n["p"] == base_to or r.random() > 0.12:
+        if n["p"] == base_to or r.random() > (0.5 if n["p"] in empty_dst else 0.12):
             continue
         if n["k"] == "d":
             # (a link to a real directory elsewhere: a directory "created" there would put the children outside the destination)
